@@ -3,8 +3,9 @@
 import json, os, shutil, glob
 V = os.path.dirname(os.path.dirname(os.path.abspath(__file__)))
 M = json.load(open(os.path.join(V, "seeded", "MATRIX.json")))
+B4 = json.load(open(os.path.join(V, "seeded", "BASELINE-R4.json"))) if os.path.exists(os.path.join(V, "seeded", "BASELINE-R4.json")) else {}
 n = 0
-for d in sorted(glob.glob(os.path.join(V, "seeded", "candidates", "C*-*")) + glob.glob(os.path.join(V, "seeded", "candidates", "R2-*")) + glob.glob(os.path.join(V, "seeded", "candidates", "R3-*"))):
+for d in sorted(glob.glob(os.path.join(V, "seeded", "candidates", "C*-*")) + glob.glob(os.path.join(V, "seeded", "candidates", "R2-*")) + glob.glob(os.path.join(V, "seeded", "candidates", "R3-*")) + glob.glob(os.path.join(V, "seeded", "candidates", "R4-*"))):
     cid = os.path.basename(d)
     conf = os.path.join(d, "confirm.json")
     if not os.path.exists(conf):
@@ -35,6 +36,8 @@ for d in sorted(glob.glob(os.path.join(V, "seeded", "candidates", "C*-*")) + glo
         "detected_by": {p: {"exit": r["exit"], "classes": r["classes"]} for p, r in det.items() if isinstance(r, dict)},
         "detection_run": "tools/killmatrix.py: patch applied in a scratch worktree (VERIF_REPO), `./check <property> --tier quick`, VERIF_SEED=1",
     }
+    if cid in B4:
+        m["detected_before_strengthening"] = {p: {"exit": r["exit"], "classes": r["classes"]} for p, r in B4[cid].items() if isinstance(r, dict)}
     json.dump(m, open(os.path.join(out, "meta.json"), "w"), indent=1)
     n += 1
 print("promoted", n)
